@@ -60,6 +60,12 @@ Mutations(doc) ==
   \* ---- interfaces
   \cup { Mut([doc EXCEPT ![i].fields = Drop(@, 1)], "interface_field_missing") : i \in {i \in Kind(doc, "OBJECT") : doc[i].ifaces # <<>> /\ Len(doc[i].fields) > 1} }
   \cup { Mut([doc EXCEPT ![i].fields[1].type = ListOf(I)], "interface_field_type") : i \in {i \in Kind(doc, "OBJECT") : doc[i].ifaces # <<>>} }
+  \* an interface field of composite type implemented by a LIST of an implementor / of the interface itself (a list is no subtype of its member)
+  \cup UNION { LET t == doc[p[1]].fields[p[2]].type IN
+                 { Mut([doc EXCEPT ![p[1]].fields[p[2]].type = w], "interface_field_type_listed") :
+                     w \in {ListOf(t), NonNull(ListOf(NonNull(Named(BaseName(t))))), ListOf(ListOf(Named(BaseName(t))))} }
+               : p \in {q \in (DOMAIN doc) \X (1..8) : q[1] \in Kind(doc, "OBJECT") /\ doc[q[1]].ifaces # <<>> /\ q[2] \in DOMAIN doc[q[1]].fields
+                                                     /\ doc[q[1]].fields[q[2]].n = "peer"} }
   \cup { Mut([doc EXCEPT ![i].fields[1].args = Drop(@, 1)], "interface_arg_missing") : i \in {i \in Kind(doc, "OBJECT") : doc[i].ifaces # <<>> /\ doc[i].fields[1].args # <<>>} }
   \cup { Mut([doc EXCEPT ![i].fields[1].args = Append(@, ArgD("must", NonNull(I)))], "interface_extra_required_arg") : i \in {i \in Kind(doc, "OBJECT") : doc[i].ifaces # <<>>} }
   \cup { Mut([doc EXCEPT ![i].fields[1].args[1].type = I], "interface_arg_type") : i \in {i \in Kind(doc, "OBJECT") : doc[i].ifaces # <<>> /\ doc[i].fields[1].args # <<>>} }
@@ -82,6 +88,12 @@ Mutations(doc) ==
   \cup { Mut(Append(doc, DirectiveD("loop", <<WD(ArgD("a", I), <<DU("loop", <<>>)>>)>>, <<"ARGUMENT_DEFINITION">>)), "directive_cycle_self") }
   \cup { Mut(doc \o << DirectiveD("ping", <<WD(ArgD("a", I), <<DU("pong", <<>>)>>)>>, <<"ARGUMENT_DEFINITION">>),
                       DirectiveD("pong", <<WD(ArgD("b", I), <<DU("ping", <<>>)>>)>>, <<"ARGUMENT_DEFINITION">>) >>, "directive_cycle_two") }
+  \* the same cycles through directives declared for other (or more) locations than ARGUMENT_DEFINITION
+  \cup { Mut(Append(doc, DirectiveD("loop", <<WD(ArgD("a", I), <<DU("loop", <<>>)>>)>>, locs)), "directive_cycle_self_locs") :
+           locs \in {<<"INPUT_FIELD_DEFINITION">>, <<"ARGUMENT_DEFINITION", "INPUT_FIELD_DEFINITION">>, <<"INPUT_FIELD_DEFINITION", "OBJECT">>} }
+  \cup { Mut(doc \o << DirectiveD("ping", <<WD(ArgD("a", I), <<DU("pong", <<>>)>>)>>, l1),
+                      DirectiveD("pong", <<WD(ArgD("b", I), <<DU("ping", <<>>)>>)>>, l2) >>, "directive_cycle_two_locs") :
+           l1 \in {<<"ARGUMENT_DEFINITION", "INPUT_FIELD_DEFINITION">>, <<"INPUT_FIELD_DEFINITION">>}, l2 \in {<<"INPUT_FIELD_DEFINITION">>, <<"ARGUMENT_DEFINITION", "INPUT_FIELD_DEFINITION">>} }
   \cup { Mut(Append(doc, DirectiveD("where", <<>>, <<"OBJECT", "NOWHERE">>)), "directive_bad_location") }
   \cup { Mut(doc \o << DirectiveD("onarg", <<>>, <<"ARGUMENT_DEFINITION">>), DirectiveD("uses", <<WD(ArgD("a", I), <<DU("onarg", <<>>)>>)>>, <<"OBJECT">>) >>, "valid_directive_on_directive_arg") }
   \cup { Mut(doc \o << DirectiveD("oninf", <<>>, <<"INPUT_FIELD_DEFINITION">>), DirectiveD("uses", <<WD(ArgD("a", I), <<DU("oninf", <<>>)>>)>>, <<"OBJECT">>) >>, "directive_location_directive_arg") }
